@@ -38,6 +38,8 @@ CLAIMED = {
          "bounds: credentials <= 2+2 bytes; clientAllowed (net.SplitHostPort / ParseIP / IsLoopback string parsing) is NOT encoded — the IP filter clause is outside the claim; the handler list is the one in the harness (a newly added privileged handler without a gate is not detected); decided by cvc5 for the auth harness"),
  "C24": ("4 C24", "Two evaluations of Arbiters.getCandidateIndexAtRandom on the same chain data (symbolic previous-block nonce, enumerated counts) must agree, where every draw from the process-global math/rand source is an arbitrary value (any other goroutine may draw or reseed between two accesses) and a locally seeded generator is a deterministic uninterpreted function of its seed. Two rankings by getSortedProducers of 3 producers with arbitrary votes (ties allowed) and distinct node keys, each under a solver-chosen iteration order of the producer map, must be identical and descending by votes.",
          "bounds: 3 producers; counts enumerated; native replay of a schedule / map-order violation is by repetition (goroutines hammering rand.Int for 5 s; up to 500 re-rankings) and therefore probabilistic; getRandomDposV2Producers, getSortedProducersDposV2 (float vote rights) and the statement's call-graph clause ('all consensus code paths') are not decided"),
+ "C13": ("4 C13", "Per-transaction database processors (every type that defines GetSaveProcessor/GetRollbackProcessor: WithdrawFromSideChain V0/V1/V2, CRCProposal, CRCProposalReview, CRCProposalTracking) run against an in-memory database.Tx/Bucket with a symbolic pre-existing unrelated entry and fully symbolic 32-byte keys: connect stores every key; disconnect removes exactly those keys and leaves the unrelated entry; every payload version the save side handles has a rollback side.",
+         "bounds: <= 2 side-chain hashes, 1..2-byte data values, one pre-existing entry; the block-level indexers (UnspentIndex, UtxoIndex, TxIndex, ReturnDepositIndex) and ffldb itself are not encoded — 'disconnect undoes connect' is decided for the per-transaction processors only"),
 }
 
 # thorough tier (deeper bounds + every unsat cross-checked with z3 5.1.0) is
@@ -52,7 +54,6 @@ NA = {
  "C08": "same obstacle as C07 (hash injectivity) plus recursive tree traversal over symbolic sizes; not built",
  "C10": "commitment soundness needs hash injectivity (see C07); the crash-freedom half of AuxPow.Check is claimed under C03",
  "C12": "chain selection over histories of forks against a database-backed BlockChain: cannot be constructed symbolically within reach; decision kernel not built",
- "C13": "per-transaction save/rollback processors work against ffldb transactions (I/O, pointer-rich heap): not encodable",
  "C14": "indexers read and write ffldb buckets: not encodable (see C13)",
  "C15": "cache transparency is a history property over go-cache / map-backed structures with database fall-through: not built",
  "C16": "ffldb over leveldb + treap with real file I/O: the code the property depends on cannot be encoded",
